@@ -181,6 +181,8 @@ func (g *Gateway) handleWebsocketProtocol(ctx context.Context, c *websocket.Conn
 	handler := NewProcessor(g, t)
 	RegisterTunnel(t, handler)
 	defer RemoveTunnel(t)
+	// the tunnel is over when the packet loop returns, whatever the reason
+	defer t.closeBackend()
 	handler.Process(ctx)
 }
 
@@ -236,6 +238,11 @@ func (g *Gateway) handleLegacyProtocol(w http.ResponseWriter, r *http.Request, t
 			handler := NewProcessor(g, t)
 			RegisterTunnel(t, handler)
 			defer RemoveTunnel(t)
+			// the tunnel is over when the packet loop returns, whatever the
+			// reason: release the backend, the outgoing channel and the cache entry
+			defer c.Delete(t.RDGId)
+			defer t.transportOut.Close()
+			defer t.closeBackend()
 			handler.Process(r.Context())
 		}
 	}
